@@ -199,29 +199,9 @@ def check_regression(ck, repo):
                   found=repr(o.value)[:200] if o.kind == "return" else "raises")
         elif not few:
             seen["regress"] += 1
-            orc2 = Oracle(repo, f, cfg, o.facts)
-            orc2.let("CE", "self.get_penetrant_data(component)")
-            orc2.let("X", "numpy.divide(1, [e.temperature for e in CE.experiments])")
-            orc2.let("Y", "numpy.log([e.permeance.value for e in CE.experiments])")
-            variants = ["-(numpy.linalg.lstsq(numpy.vstack([X, numpy.ones(len(X))]).T, Y, rcond=-1)[0][0] * R)",
-                        "-(numpy.linalg.lstsq(numpy.vstack([X, numpy.ones(len(X))]).T, Y, rcond=None)[0][0] * R)",
-                        "-(numpy.linalg.lstsq(numpy.vstack([numpy.ones(len(X)), X]).T, Y, rcond=-1)[0][1] * R)",
-                        "-(numpy.linalg.lstsq(numpy.vstack([numpy.ones(len(X)), X]).T, Y, rcond=None)[0][1] * R)"]
-            ok = False
-            wants = []
-            if o.kind == "return" and isinstance(o.value, Num):
-                for v in variants:
-                    try:
-                        w = orc2.eval(v)
-                    except (poly.Unmodelled, RaiseSignal) as e:
-                        ck.note("regression oracle variant not evaluable: %s" % e)
-                        continue
-                    wants.append(w)
-                    if isinstance(w, Num) and w.r == o.value.r:
-                        ok = True
+            ok, why = regression_structure(repo, f, cfg, o)
             ck.ob("M3", f.qualname, "Ea = -R * slope of the least-squares line of ln(permeance) against 1/T over the component's experiments",
-                  where, ok, expected=lambda: str(wants[0].r)[:400] if wants else "", found=lambda: repr(o.value)[:400] if o.kind == "return" else "raises",
-                  sample=True)
+                  where, ok, why, found=lambda: repr(o.value)[:400] if o.kind == "return" else "raises", sample=True)
     ck.floor("activation-energy arms", sum(1 for v in seen.values() if v), 3)
 
 
@@ -269,3 +249,69 @@ def check_pure_flux(ck, repo):
         w = orc.eval("self.get_permeance(temperature, component).value * (component.get_vapor_pressure(temperature) - (%s))" % pi)
         sck.ob("M5", f.qualname, "pure-component flux == permeance * (saturation pressure - permeate-side pressure) [%s]" % mode, f.loc(),
                outs[0].value.r == w.r, expected=lambda: str(w.r), found=lambda: str(outs[0].value.r), sample=True)
+
+
+
+def regression_structure(repo, f, cfg, o):
+    """The returned value must be -R * (component k of the least-squares solution) where the design matrix has the family
+    1/T_i as its k-th column and a column of ones, and the response is the family ln(P_i.value), all over the component's
+    own experiments.  Decided on the arguments of the (uninterpreted) library call, whatever numpy routine stacks them."""
+    if o.kind != "return" or not isinstance(o.value, Num):
+        return False, "does not return a number"
+    orc = Oracle(repo, f, cfg, o.facts)
+    orc.let("CE", "self.get_penetrant_data(component)")
+    R = orc.eval("R").r
+    coeff = -o.value.r / R
+    a = coeff.single_atom()
+    if a is None:
+        return False, "result is not -R times one component of the regression solution"
+    # peel index selectors down to the lstsq application
+    sel = []
+    cur = a
+    while cur is not None and cur.kind == "fn" and cur.name == "idx":
+        sel.append(cur.args[1])
+        cur = cur.args[0].single_atom()
+    if cur is None or cur.kind != "ucall" or not cur.name.endswith("lstsq"):
+        return False, "result does not come from a least-squares solve"
+    if len(sel) != 2 or not (isinstance(sel[-1], (int, Rat)) and (sel[-1] == 0 or (isinstance(sel[-1], Rat) and sel[-1].is_zero()))):
+        return False, "the solution vector (first element of lstsq's result) is not what is indexed"
+    k = sel[0] if isinstance(sel[0], int) else sel[0].as_int()
+    A, Y = cur.args[0], cur.args[1]
+    # expected families over the component's own experiments
+    want_x = orc.eval("[1 / e.temperature for e in CE.experiments]")
+    want_y = orc.eval("[numpy.log(e.permeance.value) for e in CE.experiments]")
+    kx, ky = val_key(want_x), val_key(want_y)
+
+    def columns(key):
+        if isinstance(key, Rat):
+            sa = key.single_atom()
+            if sa is not None and sa.kind in ("ucall", "fn"):
+                for arg in sa.args:
+                    c = columns(arg)
+                    if c is not None:
+                        return c
+            return None
+        if isinstance(key, tuple):
+            if key and key[0] in ("lit", "tup") and len(key) >= 3:
+                return list(key[1:])
+            for e in key:
+                c = columns(e)
+                if c is not None:
+                    return c
+        return None
+
+    cols = columns(A)
+    if not cols or len(cols) != 2:
+        return False, "the design matrix is not built from two columns"
+    pos = [i for i, c in enumerate(cols) if key_equiv(c, kx)]
+    if len(pos) != 1:
+        return False, "no column of the design matrix is 1/T_i over the component's experiments"
+    other = cols[1 - pos[0]]
+    ones_ok = "ones" in key_str(other) or (isinstance(other, tuple) and other and other[0] == "rep")
+    if not ones_ok:
+        return False, "the second column of the design matrix is not a column of ones"
+    if k != pos[0]:
+        return False, "the returned coefficient is component %s of the solution but 1/T is column %d" % (k, pos[0])
+    if not key_equiv(Y, ky):
+        return False, "the response is not ln(P_i.value) over the component's experiments"
+    return True, ""
